@@ -222,14 +222,21 @@ func runC28(c *Ctx) {
 	if sc.ver < 0x0304 {
 		scfg.CipherSuites = []uint16{sc.suite}
 	}
-	// two phases with the same (position, length) query; between them optionally a TLS 1.3 key update
+	// two phases with the same (position, length) query; between them optionally a TLS 1.3 key update (also one that a second client task meets in Read while this task sits in a Write held back by the transport)
 	// initiated by the reference server (the sending key changes, the sequence number restarts), or a
 	// jump of the sequence numbers on both ends to a position that cannot be reached record by record
 	phases := 1 + ch.Pick(2, "phases")
 	between := "none"
 	var jumpTo int64
 	if phases == 2 {
-		switch ch.Pick(3, "between") {
+		switch ch.Pick(4, "between") {
+		case 3:
+			if sc.ver == 0x0304 {
+				// the server's KeyUpdate(update_requested) is processed by a second client task (Read)
+				// while this task is inside a Write that the transport holds back
+				between = "key-update-during-write"
+				peer = PeerRef
+			}
 		case 1:
 			if sc.ver == 0x0304 {
 				between = "key-update"
@@ -258,6 +265,37 @@ func runC28(c *Ctx) {
 	if between == "key-update" {
 		sp.ServerKeyUpdate = func(i int) (bool, bool) { return i == rounds, true }
 	}
+	// key-update-during-write: phase 0 as usual; then a trigger message makes the server send
+	// KeyUpdate(update_requested); the client->server direction stalls for 3 s behind a 512-byte send
+	// buffer, so the main task's 20 kB Write sits in the transport (holding the write half) while the
+	// aux task reads and meets the KeyUpdate; when both are through, phase 1 asks for the keystream
+	var kuwWriting, kuwAuxDone bool
+	var kuwAuxErr error
+	kuwBig := make([]byte, 20000)
+	if between == "key-update-during-write" {
+		sp.ServerKeyUpdate = func(i int) (bool, bool) { return i == rounds+1, true } // rounds echoes + the phase-0 plaintext come first
+		sp.AuxClient = func(o *ConnOutcome) {
+			for !kuwWriting {
+				if o.clientGone || kuwAuxDone {
+					return
+				}
+				simrt.WaitSteps(2)
+			}
+			simrt.Sleep(300 * time.Millisecond)
+			want := len("trigger") + len(kuwBig)
+			buf := make([]byte, 4096)
+			got := 0
+			for got < want {
+				n, err := o.U.Read(buf)
+				got += n
+				if err != nil {
+					kuwAuxErr = err
+					break
+				}
+			}
+			kuwAuxDone = true
+		}
+	}
 	var ioErr error
 	sp.After = func(u *tls.UConn) {
 		echo := func(b []byte) bool {
@@ -272,7 +310,30 @@ func runC28(c *Ctx) {
 			}
 			return true
 		}
+		defer func() { kuwAuxDone = true }()
 		for ph := 0; ph < phases; ph++ {
+			if ph == 1 && between == "key-update-during-write" {
+				if _, err := u.Write([]byte("trigger")); err != nil {
+					ioErr = err
+					return
+				}
+				l.AB.Cap = 512
+				l.AB.StallAt, l.AB.StallFor = l.AB.Total, 3*time.Second
+				kuwWriting = true
+				if _, err := u.Write(kuwBig); err != nil {
+					ioErr = err
+					return
+				}
+				for !kuwAuxDone {
+					simrt.WaitSteps(2)
+				}
+				l.AB.Cap = 0
+				if kuwAuxErr != nil {
+					ioErr = fmt.Errorf("reader task: %v", kuwAuxErr)
+					return
+				}
+				c.Fault("key-update-during-write", 1)
+			}
 			if ph == 1 && between == "seq-jump" && o != nil && o.UServer != nil {
 				// both ends idle: the server waits for the next record
 				tls.VerifSetSeq(u.Conn, jumpTo, -1)
